@@ -312,3 +312,27 @@ package keepclient
 //@   calls ioutil.ReadAll#1: set buf0 = $r0
 //@   calls KeepClient.PutB#1: requires rerr == nil && $0 == buf0
 //@   ensures rerr != nil ==> err == rerr && replicas == 0
+
+// The default HTTP client bounds every request as a whole (connecting, sending
+// the body, waiting for and reading the answer) by the request timeout - a
+// service that stalls is a failed attempt (retried, or counted out), never a
+// Put that waits forever while enough other services have accepted the block.
+//@ func KeepClient.httpClient property C11 safety -nil,-bounds
+//@   at assign .Timeout#1: assert $v == requestTimeout
+//@   at assign requestTimeout#1: assert kc.foundNonDiskSvc && requestTimeout == DefaultProxyRequestTimeout
+//@   at assign requestTimeout#2: assert !kc.foundNonDiskSvc && requestTimeout == DefaultRequestTimeout
+//@   at assign .Timeout#2: assert $v == connectTimeout
+
+// The feeder goroutine of the cached service list: what it offers on the
+// "latest" channel is never older than the last refresh request - after a
+// request on "clear" it waits for the next successfully fetched list before
+// it offers anything again (a Put that follows RefreshServiceDiscovery must
+// not pick its writable services from the list the refresh was to replace).
+//@ func cachedSvcList.poll$1 property C11
+//@   ghost fresh bool = false
+//@   at assign current#1: set fresh = true
+//@   at assign current#2: set fresh = true
+//@   at assign current#3: set fresh = true
+//@   loop 1: invariant fresh
+//@   at select#1: assert $index == 2 ==> fresh
+//@   at select#1: set fresh = ite($index == 0, false, fresh)
